@@ -23,6 +23,9 @@ RULE = ('state = one table (or one ordered pair of tables for dataJoin, one type
         'once a global of the caller (kk = 1, b = 1, gg = 7), a key of the variables argument (kk = 2, b = 2, arrayLength = 2) and '
         'possibly a row field (b); 5 more scripts set the global with a script statement (non-trivial: swapping variables and '
         'globals in the lookup changes the expected result on this table). '
+        'Literal look-alikes: every table of <= N rows whose column a is drawn from {null, abc, true, false, True, FALSE, TRUE, '
+        'Null, NULL, NaN, Infinity, -inf}: only the exact texts true/false/null are typed, the others are strings and the '
+        'parse goes on (non-trivial: a string column holding a look-alike). '
         'Calendar ends: every table of <= 3 rows whose column a is drawn from {null, 0001-01-01T00:00:00+23:59, '
         '9999-12-31T23:59:59-23:59, 9999-12-31T23:59:59Z, 0001-01-01T00:00:00Z, a valid date-time, abc} under UTC and DST zones: '
         'a text whose local time does not exist in years 1..9999 stays a string and the rest of the table is parsed '
@@ -1319,6 +1322,81 @@ def fam_csv_edge(arg):
 
 
 # ---------------------------------------------------------------------------------------------------------------------
+# family csv_case: string cells that are case variants / look-alikes of typed literals. Only the exact texts true, false,
+# null and finite decimal numbers are typed; True, FALSE, TRUE, Null, NULL, NaN, Infinity, -inf are strings.
+# ---------------------------------------------------------------------------------------------------------------------
+
+CASE_CELLS = [None, 'abc', 'true', 'false', 'True', 'FALSE', 'TRUE', 'Null', 'NULL', 'NaN', 'Infinity', '-inf']
+CASE_SECOND = [(None, 'null'), (False, 'bool')]
+
+
+def check_csv_case(case, acc):
+    col1 = [CASE_CELLS[i] for i in case['cols'][0]]
+    col2 = [CASE_SECOND[i] for i in case['cols'][1]]
+    present = [c for c in col1 if c is not None]
+    typed = [c in ('true', 'false') for c in present]
+    variants = any(c not in ('abc', 'true', 'false') for c in present)
+    if any(typed) and not all(typed):
+        # true/false next to other texts: a boolean column with an invalid cell or a string column? Not documented (the first
+        # non-null cell decides in the code; validate_data documents TypeError for invalid data) - nothing is called or compared.
+        acc.unspecified += 1
+        return False
+    values = [(c == 'true') if c in ('true', 'false') else c for c in col1]
+    lines = [','.join(CSV_FIELDS)] + [','.join([rd.csv_quote('null' if c is None else c), rd.csv_quote(rd.cell_text(v, st))])
+                                      for c, (v, st) in zip(col1, col2)]
+    want = [{'a': v, 'b': b} for v, (b, _) in zip(values, col2)]
+    text = '\n'.join(lines)
+    for k, mode in enumerate(CSV_MODES):
+        if case.get('variant', k) != k:
+            continue
+        if mode == 'one string':
+            ok, res = call(acc, 'dataParseCSV', [text])
+        elif mode == 'line strings':
+            ok, res = call(acc, 'dataParseCSV', list(lines))
+        else:
+            ok, res = run_script(acc, CSV_SCRIPT, {'text': text})
+        acc.traces += 1
+        c2 = dict(case, variant=k, op=f'dataParseCSV as {mode}', csv=lines)
+        if not ok:
+            acc.violation(c2, canon_flat(want), res, 'dataParseCSV raised on a string column of literal look-alikes')
+        elif not isinstance(res, list) or any(not isinstance(r, dict) for r in res) or len(res) != len(want):
+            acc.violation(c2, canon_flat(want), canon_flat(res), 'dataParseCSV did not return one row object per line (the parse was aborted)')
+        else:
+            for ri, (got, exp) in enumerate(zip(res, want)):
+                bad = [f for f in CSV_FIELDS if canon_flat(got.get(f)) != canon_flat(exp[f])]
+                if bad:
+                    acc.violation(c2, canon_flat(want), canon_flat(res),
+                                  f'row {ri} field {bad[0]}: read back {got.get(bad[0])!r} ({rv.rtype(got.get(bad[0]))}), expected {exp[bad[0]]!r} ({rv.rtype(exp[bad[0]])})')
+                    break
+    acc.outcome(tuple(repr(v) for v in values[:2]))
+    return variants
+
+
+def csv_case_size(nrows):
+    return sum((len(CASE_CELLS) * len(CASE_SECOND)) ** r for r in range(nrows + 1))
+
+
+def fam_csv_case(arg):
+    r, firsts = arg
+    acc = Acc('csv_case')
+    for first in firsts:
+        for rest in itertools.product(range(len(CASE_CELLS)), repeat=max(r - 1, 0)):
+            c1 = ([first] + list(rest)) if r else []
+            for c2 in itertools.product(range(len(CASE_SECOND)), repeat=r):
+                acc.cases += 1
+                acc.states += 1
+                if check_csv_case({'cols': [c1, list(c2)]}, acc):
+                    acc.nontrivial += 1
+                if r == 2 and c1 == [4, 9] and c2 == (1, 0):
+                    acc.sample({'csv': ['a,b', 'True,false', 'NaN,null'], 'expected_a': ['True', 'NaN'], 'expected_type': 'string'})
+    return acc.result()
+
+
+def csv_case_shards(nrows):
+    return [(0, [0])] + [(r, [first]) for r in range(1, nrows + 1) for first in range(len(CASE_CELLS))]
+
+
+# ---------------------------------------------------------------------------------------------------------------------
 # families
 # ---------------------------------------------------------------------------------------------------------------------
 
@@ -1378,12 +1456,15 @@ def families(tier):
                f'process time zones {EDGE_ZONES[tier]}: every table of <= {EDGE_ROWS} rows, column a from {len(EDGE_CELLS)} cells (null, 4 well-formed '
                'date-time texts at the ends of the calendar, a valid date-time, abc), column b from {null, 1} x 3 reading modes; per zone '
                'the reference says datetime or string', expected=csv_edge_size(tier)),
+        Family('csv_case', fam_csv_case, csv_case_shards(nrows),
+               f'every table of <= {nrows} rows, column a from {CASE_CELLS[1:]} and null, column b from {{null, false}} x 3 reading modes; '
+               'columns mixing true/false with other texts are counted UNSPECIFIED', expected=csv_case_size(nrows)),
     ]
 
 
 _CHECKS = {'filter': check_filter, 'sort': check_sort, 'top': check_top, 'aggregate': check_aggregate, 'calc': check_calc,
            'join_keys': check_join_keys, 'join_names': check_join_names, 'script': check_script, 'csv': check_csv,
-           'scope': check_scope, 'aggregate_num': check_aggregate_num, 'keykinds': check_keykinds, 'join_keykinds': check_join_keykinds, 'csv_tz': check_csv_tz, 'csv_edge': check_csv_edge}
+           'scope': check_scope, 'aggregate_num': check_aggregate_num, 'keykinds': check_keykinds, 'join_keykinds': check_join_keykinds, 'csv_tz': check_csv_tz, 'csv_edge': check_csv_edge, 'csv_case': check_csv_case}
 
 
 def replay(family, case):
